@@ -109,6 +109,9 @@ func (ctx Ctx) coqTypeOfType(n ast.Node, t types.Type) coq.Type {
 		if t.Obj().Pkg().Name() == "disk" && t.Obj().Name() == "Disk" {
 			return coq.TypeIdent("disk.Disk")
 		}
+		// a type reached through type inference (var xs []T, var n N) is a
+		// dependency just like one that is spelled out
+		ctx.dep.addDep(ctx.qualifiedName(t.Obj()))
 		if info, ok := ctx.getStructInfo(t); ok {
 			return coq.StructName(info.name)
 		}
